@@ -132,7 +132,9 @@ def run(ctx):
         for b2, t2 in sorted(pushes, key=lambda x: x[0]):
             v = M.noref(M.strip(Tj.operand(t2["args"][1])))
             order.append(v)
-        okj = len(order) == 2 and order[0][0] == "const" and order[0][1] == "=" and pushes[1][0] in cf.reachable(pushes[0][0]) and pushes[0][0] not in cf.reachable(pushes[1][0])
+        pushes = sorted(pushes, key=lambda x: (dominated_by_blocks(cf, x[0], [y[0] for y in pushes if y[0] != x[0]]), x[0]))
+        order = [M.noref(M.strip(Tj.operand(t2["args"][1]))) for b2, t2 in pushes]
+        okj = len(order) == 2 and order[0][0] == "const" and order[0][1] == "=" and dominated_by_blocks(cf, pushes[1][0], [pushes[0][0]]) and not dominated_by_blocks(cf, pushes[0][0], [pushes[1][0]])
         if okj:
             # receiver is a clone of the key (.0 of the pair), the appended value is .1 of the same pair
             recv = M.noref(Tj.operand(pushes[0][1]["args"][0]))
